@@ -63,8 +63,20 @@ func (c14) Gen(r *rand.Rand, tier string, run int) *core.Case {
 			c.Ops = append(c.Ops, op)
 		}
 	}
-	for i := 0; i < r.IntN(3); i++ {
-		c.Ops = append(c.Ops, core.Op{Kind: "update", Actor: 60, X: next})
+	updates := r.IntN(3)
+	if r.IntN(3) == 0 {
+		// writes the validator refuses racing accepted service-side updates,
+		// with a validator that takes its time
+		c.Params["validator_yields"] = 1 + r.IntN(4)
+		updates = 2 + r.IntN(3)
+		for k := 0; k < clients && total < 15; k++ {
+			c.Ops = append(c.Ops, core.Op{Kind: "set-rejected", Actor: k, X: -next})
+			next++
+			total++
+		}
+	}
+	for i := 0; i < updates; i++ {
+		c.Ops = append(c.Ops, core.Op{Kind: "update", Actor: 60 + i%2*5, X: next})
 		next++
 	}
 	// other subscribers come and go while writes are announced: they are not
@@ -94,6 +106,7 @@ func (c14) Run(c *core.Case, env *core.Env) {
 		env.Violate("harness/setup", "%v", err)
 		return
 	}
+	w.Impls[0].ValidatorYields = c.P("validator_yields", 0)
 	nConn := c.P("conns", 1)
 	var proxies []probe.ProbeProxy
 	for i := 0; i < nConn; i++ {
@@ -179,7 +192,7 @@ func (c14) Run(c *core.Case, env *core.Env) {
 		wg.Add(1)
 		go func(a int) {
 			defer wg.Done()
-			if a == 60 {
+			if a == 60 || a == 65 {
 				zzsim.SetNode("server")
 			}
 			for _, op := range by[a] {
